@@ -15,6 +15,7 @@ pub mod c06;
 pub mod c07;
 pub mod c10;
 pub mod c11;
+pub mod c12;
 pub mod c13;
 pub mod c17;
 pub mod c14;
@@ -242,6 +243,7 @@ pub fn run(id: &str, tier: Tier, rest: &[String]) -> i32 {
         "C07" => c07::run(tier, part),
         "C10" => c10::run(tier, part),
         "C11" => c11::run(tier, part),
+        "C12" => c12::run(tier, part),
         "C13" => c13::run(tier, part),
         "C17" => c17::run(tier, part),
         "C14" => c14::run(tier, part),
@@ -275,6 +277,7 @@ pub fn replay(file: &str) -> i32 {
         "C17" => c17::replay(tier, &doc["replay"]),
         "C10" => c10::replay(tier, &doc["replay"]),
         "C11" => c11::replay(&doc["replay"]),
+        "C12" => c12::replay(&doc["replay"]),
         "C13" => c13::replay(&doc["replay"]),
         "C14" => c14::replay(&doc["replay"]),
         "C15" => c15::replay(&doc["replay"]),
